@@ -102,6 +102,11 @@ DECODE_NOTES = [
     ("Blob::new_sized", "alloc", "from_elem(length)", "allocation primitive; every caller with a decoded length (ValueReader::read_blob) checks it against remaining() first"),
     ("ValueReaderFile as versatiles_core::io::value_reader::ValueReader<'a, E>>::get_sub_reader", "alloc", "from_elem(length)",
      "dominated by `if end > self.len { bail }` with end = start + length, so length <= file length"),
+    ("ByteRange::as_range_usize", "arith", "self.offset + self.length",
+     "conversion helper of a public value type; its only caller on decoding paths, Blob::read_range, bails out first unless "
+     "offset.saturating_add(length) <= blob length, so the sum cannot overflow there",
+     [{"kind": "callers_are", "callers": ["versatiles_core::types::blob::Blob::read_range"]},
+      {"kind": "fn_has_guard", "fn": "versatiles_core::types::blob::Blob::read_range", "mentions": [".offset.saturating_add(", ".0.len()"]}]),
 ]
 
 
@@ -290,11 +295,15 @@ def main():
         b = P.fn(fq)
         for s in census.collect_decode_sites(P, b, pt.get(fq, ())):
             hit = None
-            for fn, kind, sub, reason in DECODE_NOTES:
+            for note in DECODE_NOTES:
+                fn, kind, sub, reason = note[:4]
                 if fn in s.fn and kind == s.kind and sub in s.desc:
-                    hit = reason
+                    hit = note
             if hit:
-                dout.append({"key": s.key, "reason": hit})
+                e = _with_facts({"key": s.key, "reason": hit[3]}, s)
+                if len(hit) > 4:
+                    e["witness"] = _norm_witness(hit[4], s)
+                dout.append(e)
             else:
                 dunc.append(s)
     with open(os.path.join(HERE, "tables", "decode_sites.json"), "w") as fh:
